@@ -413,6 +413,46 @@ func c10History(c *vk.Ctx, r *rand.Rand, hist int, hub *TargetHub, utgt *udpTarg
 			return false
 		}
 	}
+	// a very large configuration (> 1 MiB of YAML, 13000..15000 keys on one listener): loaded as a
+	// whole - its last key authenticates - and replaced as a whole afterwards
+	if hist%3 == 0 {
+		big := ConfSpec{Legacy: append([]LegacyKey(nil), cur.Legacy...)}
+		for _, sv := range cur.Services {
+			big.Services = append(big.Services, SvcSpec{append([]LnSpec(nil), sv.Listeners...), append([]KeySpec(nil), sv.Keys...)})
+		}
+		bigSvc := SvcSpec{Listeners: []LnSpec{{"tcp", fmt.Sprintf("203.0.113.30:%d", portBase+25)}}}
+		nBig := 13000 + r.Intn(2000)
+		for i := 0; i < nBig; i++ {
+			bigSvc.Keys = append(bigSvc.Keys, KeySpec{fmt.Sprintf("big-%05d", i), "chacha20-ietf-poly1305", fmt.Sprintf("secret-%05d-%s", i, "0123456789abcdefghijklmnopqrstuv")})
+		}
+		big.Services = append(big.Services, bigSvc)
+		prev := cur
+		for pass, cf := range []ConfSpec{big, prev} {
+			yaml := []byte(cf.YAML())
+			atomicWrite(srv.CfgPath, yaml)
+			res, err := srv.ReloadNoWrite(120 * time.Second)
+			trace = append(trace, fmt.Sprintf("large-config-pass-%d(%d bytes)->%s", pass, len(yaml), res))
+			c.Eval(fmt.Sprintf("reload|large-configuration|pass=%d", pass))
+			if err != nil || res != "ok" {
+				c.Violation("C10/reload-outcome", map[string]any{"expected": "ok", "got": res, "err": fmt.Sprint(err), "config_bytes": len(yaml), "keys_on_one_listener": nBig, "history": trace})
+				return false
+			}
+			cur = cf
+			if pass == 0 {
+				ep := Endpoint{"tcp", bigSvc.Listeners[0].Addr, bigSvc.Keys, "svc-big"}
+				for _, k := range []KeySpec{bigSvc.Keys[nBig-1], bigSvc.Keys[0], bigSvc.Keys[nBig/2]} {
+					if _, ok := pp.probeTCP(c, r, ep, k); !ok {
+						c.Note("large configuration (%d bytes, %d keys): key %s; history: %v", len(yaml), nBig, k.ID, trace)
+						return false
+					}
+				}
+				c.Count("large_configurations_loaded_completely", 1)
+			}
+			if !verify(nSteps+1+pass, trace[len(trace)-1]) {
+				return false
+			}
+		}
+	}
 	// (3) goroutines and descriptors: same as a fresh start of the last loaded configuration
 	time.Sleep(1200 * time.Millisecond) // UDP associations created by the probes expire (timeout 0.4 s)
 	fdReloaded := len(lab.FDs(srv.Pid))
@@ -471,7 +511,7 @@ func init() {
 		Parallel:    func(t string) int { return 5 },
 		Timeout:     func(t string) time.Duration { return 25 * time.Minute },
 		Run: func(c *vk.Ctx) {
-			for _, s := range []string{"histories", "reloads_ok", "reloads_failed", "matrix_probes", "rotated_id_probes", "final_goroutine_and_fd_audits"} {
+			for _, s := range []string{"histories", "reloads_ok", "reloads_failed", "matrix_probes", "rotated_id_probes", "final_goroutine_and_fd_audits", "large_configurations_loaded_completely"} {
 				c.Require(s)
 			}
 			c10Run(c)
